@@ -134,17 +134,23 @@ impl MoveGen {
         for x in 0..self.moves.len() {
             self.moves[x].bitboard &= !mask;
         }
+        // an entry may have become empty: restore the iterator invariant
+        self.set_iterator_mask(self.iterator_mask);
     }
 
     /// Never, ever, iterate this move
     pub fn remove_move(&mut self, chess_move: ChessMove) -> bool {
+        // a pawn that can capture en passant owns more than one entry
+        let mut found = false;
         for x in 0..self.moves.len() {
             if self.moves[x].square == chess_move.get_source() {
                 self.moves[x].bitboard &= !BitBoard::from_square(chess_move.get_dest());
-                return true;
+                found = true;
             }
         }
-        false
+        // an entry may have become empty: restore the iterator invariant
+        self.set_iterator_mask(self.iterator_mask);
+        found
     }
 
     /// For now, Only iterate moves that land on the following squares
